@@ -37,10 +37,15 @@ def control_devs(s):
     src = "pu" if "pu" in names else "p1"
     out = [("ctl_time", [{"kind": "time", "t": 2 * H, "link": "p2", "value": "CLOSED"}, {"kind": "time", "t": 3 * H, "link": "p2", "value": "OPEN"}]),
            ("ctl_clock", [{"kind": "clock", "t": 5 * H, "link": "p2", "value": "CLOSED"}]),
-           ("ctl_pressure", [{"kind": "pressure", "node": "J2" if any(n["n"] == "J2" for n in s["nodes"]) else "J1", "rel": "<", "thr": 30.0, "link": "p2", "value": "OPEN"}])]
+           ("ctl_pressure", [{"kind": "pressure", "node": "J2" if any(n["n"] == "J2" for n in s["nodes"]) else "J1", "rel": "<", "thr": 30.0, "link": "p2", "value": "OPEN"}]),
+           ("ctl_pressure_nonstrict", [{"kind": "pressure", "node": "J2" if any(n["n"] == "J2" for n in s["nodes"]) else "J1", "rel": "<=", "thr": 30.0, "link": "p2", "value": "OPEN"},
+                                       {"kind": "pressure", "node": "J2" if any(n["n"] == "J2" for n in s["nodes"]) else "J1", "rel": ">=", "thr": 46.0, "link": "p2", "value": "CLOSED"}])]
     if tank:
         out.append(("ctl_level", [{"kind": "level", "node": "T", "rel": ">", "thr": 3.4, "link": src, "value": "CLOSED"},
                                   {"kind": "level", "node": "T", "rel": "<", "thr": 2.6, "link": src, "value": "OPEN"}]))
+        # the same pair spelled with the non-strict relations the API accepts (an INP file only knows ABOVE / BELOW)
+        out.append(("ctl_level_nonstrict", [{"kind": "level", "node": "T", "rel": ">=", "thr": 3.4, "link": src, "value": "CLOSED"},
+                                            {"kind": "level", "node": "T", "rel": "<=", "thr": 2.6, "link": src, "value": "OPEN"}]))
         out.append(("ctl_rule", [{"kind": "level", "node": "T", "rel": ">", "thr": 3.3, "link": "p2", "value": "CLOSED", "else_value": "OPEN", "rule": True, "prio": 3}]))
         # the same rule next to a simple control whose condition holds all the time (and changes nothing)
         out.append(("ctl_rule_plus_simple", [{"kind": "level", "node": "T", "rel": ">", "thr": 3.3, "link": "p2", "value": "CLOSED", "else_value": "OPEN", "rule": True, "prio": 3},
